@@ -80,10 +80,13 @@ def monitor(c):
     known = False
     if present:
         try:
-            known = tagv in declared
+            # the declared tag that EQUALS the tag in the data and has its type (an ill-kinded tag -- True or 1.0 for the
+            # declared tag 1 -- is not a known tag: the property asks for a ConvertError that names it)
+            keys = [k for k in declared if type(k) is type(tagv) and k == tagv]
+            hash(tagv)
+            known = bool(keys)
             if known:
-                # bool/int cross-equality: the declared tag the dict lookup finds
-                key = [k for k in declared if k == tagv][0]
+                key = keys[0]
         except TypeError:
             known = False
     if present and known:
